@@ -17,7 +17,13 @@ import (
 )
 
 type verifUser struct {
-	Name string `query:"name" form:"name" json:"name" xml:"name"`
+	Name  string `query:"name" form:"name" json:"name" xml:"name"`
+	Extra string `query:"extra" form:"extra" json:"extra" xml:"extra"` // only ever present in the query string
+}
+
+// verifStrict has a rule that its zero value violates.
+type verifStrict struct {
+	Name string `query:"name" form:"name" json:"name" xml:"name" validate:"required"`
 }
 
 type verifBody struct{ r *strings.Reader }
@@ -87,17 +93,46 @@ func verifHarness_C18_auto() {
 	case "multipart":
 		body = "--x\r\nContent-Disposition: form-data; name=\"name\"\r\n\r\nm\r\n--x--\r\n"
 	}
-	req := &http.Request{Method: m, URL: &url.URL{Path: "/", RawQuery: "name=q"}, Header: http.Header{}}
+	// emptySrc: the selected source carries no key at all (no query string, empty form)
+	emptySrc := verifChoice("emptySource", 2) == 1
+	rawQuery := "name=q&extra=e"
+	if emptySrc {
+		rawQuery = ""
+		if want == "form" {
+			body = ""
+		}
+	}
+	req := &http.Request{Method: m, URL: &url.URL{Path: "/", RawQuery: rawQuery}, Header: http.Header{}}
 	if ct != "" {
 		req.Header["Content-Type"] = []string{ct}
 	}
 	rb := &verifBody{strings.NewReader(body)}
 	req.Body = rb
+	if verifSymbolic() && !emptySrc {
+		// tag the maps the stubs hand out, so that the decoded map identifies its source
+		req.PostForm = url.Values{"__source": {"postform"}}
+		req.Form = url.Values{"__source": {"form+query"}}
+		verifSetGhost("URL.Query", url.Values{"__source": {"query"}})
+	}
 	var obj verifUser
+	var strictObj verifStrict
 	verifEventsReset()
 	var err error
-	k := verifCatch(func() { err = Auto(req, &obj) })
+	k := verifCatch(func() {
+		if emptySrc {
+			err = Auto(req, &strictObj)
+		} else {
+			err = Auto(req, &obj)
+		}
+	})
 	verifAssert(k == "", "automatic binding does not panic")
+	if !verifSymbolic() && emptySrc {
+		// nothing to bind: the value stays zero, which the validator (when on) must reject
+		if want == "query" || want == "form" {
+			verifAssert((err != nil) == validator, "a successful bind implies the value passed validation (empty source, required field)")
+		}
+		return
+	}
 	if !verifSymbolic() {
 		if want == "multipart" && ct != "multipart/form-data; boundary=x" {
 			return // a multipart body needs its boundary parameter to be parsed natively
@@ -106,20 +141,33 @@ func verifHarness_C18_auto() {
 		case "error":
 			verifAssert(err != nil, "an unsupported Content-Type yields an error")
 		case "query":
-			verifAssert(err == nil && obj.Name == "q", "methods without a body bind the query string")
+			verifAssert(err == nil && obj.Name == "q" && obj.Extra == "e", "methods without a body bind the query string")
 		case "form":
-			verifAssert(err == nil && obj.Name == "f", "url-encoded form bodies are bound from the form")
+			verifAssert(err == nil && obj.Name == "f" && obj.Extra == "", "url-encoded form bodies are bound from the body form only")
 		case "multipart":
-			verifAssert(err == nil && obj.Name == "m", "multipart bodies are bound from the multipart form")
+			verifAssert(err == nil && obj.Name == "m" && obj.Extra == "", "multipart bodies are bound from the multipart form only")
 		case "json":
-			verifAssert(err == nil && obj.Name == "j", "JSON bodies are bound from JSON")
+			verifAssert(err == nil && obj.Name == "j" && obj.Extra == "", "JSON bodies are bound from JSON only")
 		case "xml":
-			verifAssert(err == nil && obj.Name == "x", "XML bodies are bound from XML")
+			verifAssert(err == nil && obj.Name == "x" && obj.Extra == "", "XML bodies are bound from XML only")
 		}
 		return
 	}
 	nQuery, nParse, nMulti := verifCountEvents("URL.Query"), verifCountEvents("ParseForm"), verifCountEvents("ParseMultipartForm")
 	nForm, nJSON, nXML, nVal := verifCountEvents("formam.Decode"), verifCountEvents("json.Decode"), verifCountEvents("xml.Decode"), verifCountEvents("Validate")
+	if !emptySrc && (want == "query" || want == "form" || want == "multipart") && nForm == 1 {
+		src := ""
+		for i := 0; i < verifEventCount(); i++ {
+			if verifEventKind(i) == "formam.Decode" {
+				src = verifEventStr(i, 0)
+			}
+		}
+		if want == "query" {
+			verifAssert(src == "query", "the query string, and nothing else, is decoded for methods without a body")
+		} else {
+			verifAssert(src == "postform", "the parsed body form (not the merged form+query map) is decoded")
+		}
+	}
 	switch want {
 	case "error":
 		verifAssert(err != nil, "an unsupported Content-Type yields an error")
